@@ -41,9 +41,20 @@ type CertSpec struct {
 	Serial         int
 	DNS            int  // 0 none; n>0: SAN dNSName "h<n>.test"; n<0: "*.d<-n>.test"
 	Bad            bool // signature corrupted after signing (Go only)
+	KU             int  // keyUsage extension (Go only): 0 absent, KUNoCertSign, KUCertSign, KUEncipherOnly
+	V1             bool // X.509 v1 certificate: no version field, no extensions (Go only; requires !BC, !CA, DNS == 0, KU == 0)
 }
 
-// Format: subj.key.iss.sign.ca.bc.mpl.nb.na.serial.dns.bad
+// keyUsage flavours of an issuer certificate. RFC 5280 says a certificate whose keyUsage lacks keyCertSign (or
+// which is v3 without cA) must not be used to verify certificate signatures; the graph deliberately ignores this
+// (see the comment in verifier/walk.go canAddToChain): edges depend on issuer name + key verification only.
+const (
+	KUNoCertSign   = 1 // digitalSignature only
+	KUCertSign     = 2 // keyCertSign | cRLSign
+	KUEncipherOnly = 3 // keyEncipherment only
+)
+
+// Format: subj.key.iss.sign.ca.bc.mpl.nb.na.serial.dns.flags   (flags = bad + 2*ku + 8*v1; the model ignores it)
 func (c CertSpec) String() string {
 	b := func(x bool) int {
 		if x {
@@ -51,7 +62,7 @@ func (c CertSpec) String() string {
 		}
 		return 0
 	}
-	return fmt.Sprintf("%d.%d.%d.%d.%d.%d.%d.%d.%d.%d.%d.%d", c.Subj, c.Key, c.Iss, c.Sign, b(c.CA), b(c.BC), c.MPL, c.NB, c.NA, c.Serial, c.DNS, b(c.Bad))
+	return fmt.Sprintf("%d.%d.%d.%d.%d.%d.%d.%d.%d.%d.%d.%d", c.Subj, c.Key, c.Iss, c.Sign, b(c.CA), b(c.BC), c.MPL, c.NB, c.NA, c.Serial, c.DNS, b(c.Bad)+2*c.KU+8*b(c.V1))
 }
 
 func FormatSpecs(cs []CertSpec) string {
@@ -78,7 +89,7 @@ func ParseSpecs(tok string) []CertSpec {
 			n[i] = v
 		}
 		out = append(out, CertSpec{Subj: int(n[0]), Key: int(n[1]), Iss: int(n[2]), Sign: int(n[3]), CA: n[4] == 1, BC: n[5] == 1,
-			MPL: int(n[6]), NB: n[7], NA: n[8], Serial: int(n[9]), DNS: int(n[10]), Bad: n[11] == 1})
+			MPL: int(n[6]), NB: n[7], NA: n[8], Serial: int(n[9]), DNS: int(n[10]), Bad: n[11]&1 == 1, KU: int(n[11]>>1) & 3, V1: n[11]&8 != 0})
 	}
 	return out
 }
@@ -196,6 +207,43 @@ func derWrap(tag byte, parts ...[]byte) []byte {
 // altSPKI re-encodes a certificate so that its rsaEncryption SubjectPublicKeyInfo has no NULL parameters,
 // and signs the new TBSCertificate again (SHA-256, the algorithm CreateCertificate chose).
 func altSPKI(der []byte, signer crypto.Signer) []byte {
+	return rebuildTBS(der, signer, func(kids [][]byte) [][]byte {
+		idx := -1
+		for i, k := range kids {
+			if i >= 5 && k[0] == 0x30 && bytes.Contains(k, rsaAlgNull) {
+				idx = i
+				break
+			}
+		}
+		if idx < 0 {
+			panic("altSPKI: no RSA SubjectPublicKeyInfo")
+		}
+		var spki asn1.RawValue
+		asn1.Unmarshal(kids[idx], &spki)
+		sk := derChildren(spki.Bytes)
+		kids[idx] = derWrap(0x30, rsaAlgNoNull, sk[1])
+		return kids
+	})
+}
+
+// toV1 turns a certificate into an X.509 v1 certificate: the [0] version and the [3] extensions elements of the
+// TBSCertificate are dropped, and the new TBSCertificate is signed again.
+func toV1(der []byte, signer crypto.Signer) []byte {
+	return rebuildTBS(der, signer, func(kids [][]byte) [][]byte {
+		var out [][]byte
+		for _, k := range kids {
+			if k[0] == 0xa0 || k[0] == 0xa3 {
+				continue
+			}
+			out = append(out, k)
+		}
+		return out
+	})
+}
+
+// rebuildTBS applies f to the elements of the TBSCertificate and signs the result again (SHA-256, the algorithm
+// CreateCertificate chose for both key types used here).
+func rebuildTBS(der []byte, signer crypto.Signer, f func(kids [][]byte) [][]byte) []byte {
 	var co struct {
 		TBS asn1.RawValue
 		Alg asn1.RawValue
@@ -204,21 +252,7 @@ func altSPKI(der []byte, signer crypto.Signer) []byte {
 	if _, err := asn1.Unmarshal(der, &co); err != nil {
 		panic(err)
 	}
-	kids := derChildren(co.TBS.Bytes)
-	idx := -1
-	for i, k := range kids {
-		if i >= 5 && k[0] == 0x30 && bytes.Contains(k, rsaAlgNull) {
-			idx = i
-			break
-		}
-	}
-	if idx < 0 {
-		panic("altSPKI: no RSA SubjectPublicKeyInfo")
-	}
-	var spki asn1.RawValue
-	asn1.Unmarshal(kids[idx], &spki)
-	sk := derChildren(spki.Bytes)
-	kids[idx] = derWrap(0x30, rsaAlgNoNull, sk[1])
+	kids := f(derChildren(co.TBS.Bytes))
 	tbs := derWrap(0x30, kids...)
 	h := sha256.Sum256(tbs)
 	sig, err := signer.Sign(rand.Reader, h[:], crypto.SHA256)
@@ -264,6 +298,17 @@ func buildDER(cs []CertSpec) [][]byte {
 		if c.DNS != 0 {
 			tmpl.DNSNames = []string{DNSName(c.DNS)}
 		}
+		switch c.KU {
+		case KUNoCertSign:
+			tmpl.KeyUsage = x509.KeyUsageDigitalSignature
+		case KUCertSign:
+			tmpl.KeyUsage = x509.KeyUsageCertSign | x509.KeyUsageCRLSign
+		case KUEncipherOnly:
+			tmpl.KeyUsage = x509.KeyUsageKeyEncipherment
+		}
+		if c.V1 && (c.BC || c.CA || c.DNS != 0 || c.KU != 0) {
+			panic("c10: a v1 certificate has no extensions: " + c.String())
+		}
 		parent := &x509.Certificate{Subject: Name(c.Iss)}
 		der, err := x509.CreateCertificate(rand.Reader, tmpl, parent, Public(c.Key), Signer(c.Sign))
 		if err != nil {
@@ -271,6 +316,9 @@ func buildDER(cs []CertSpec) [][]byte {
 		}
 		if altEncoded(c.Key) {
 			der = altSPKI(der, Signer(c.Sign))
+		}
+		if c.V1 {
+			der = toV1(der, Signer(c.Sign))
 		}
 		if c.Bad {
 			// corrupt the TBS-covered serial? no: keep the TBS, break the signature: flip a bit in the last byte
@@ -320,6 +368,14 @@ func (u *Universe) SelfCheck() string {
 		if c.BasicConstraintsValid != s.BC || c.IsCA != s.CA || (s.BC && c.MaxPathLen != s.MPL) ||
 			c.NotBefore.Unix() != Epoch+s.NB || c.NotAfter.Unix() != Epoch+s.NA || c.SerialNumber.Int64() != int64(s.Serial) {
 			return fmt.Sprintf("harness: certificate %d parsed fields differ from spec %s (bc=%v ca=%v mpl=%d)", i, s, c.BasicConstraintsValid, c.IsCA, c.MaxPathLen)
+		}
+		wantKU := map[int]x509.KeyUsage{0: 0, KUNoCertSign: x509.KeyUsageDigitalSignature, KUCertSign: x509.KeyUsageCertSign | x509.KeyUsageCRLSign, KUEncipherOnly: x509.KeyUsageKeyEncipherment}[s.KU]
+		wantVersion := 3
+		if s.V1 {
+			wantVersion = 1
+		}
+		if c.KeyUsage != wantKU || c.Version != wantVersion {
+			return fmt.Sprintf("harness: certificate %d has keyUsage %d version %d, spec %s wants %d / %d", i, c.KeyUsage, c.Version, s, wantKU, wantVersion)
 		}
 		if string(c.RawSubject) != string(u.Certs[u.firstWithSubj(s.Subj)].RawSubject) {
 			return "harness: subject encoding not canonical"
